@@ -10,6 +10,7 @@ import (
 	"path/filepath"
 	"strings"
 	"sync"
+	"sync/atomic"
 	"testing"
 	"time"
 
@@ -61,7 +62,13 @@ func run(c *Case, base string) (violation string, nontrivial bool, classes []str
 	os.MkdirAll(aRoot, 0o755)
 	os.MkdirAll(bRoot, 0o755)
 	j := &sess.Journal{}
-	sess.Install(j, nil)
+	var slow atomic.Bool
+	sess.Install(j, &sess.Hooks{Scan: func(string, bool, *core.Entry, bool) (bool, *core.Snapshot, error, bool) {
+		if slow.Load() {
+			time.Sleep(40 * time.Millisecond)
+		}
+		return false, nil, nil, false
+	}})
 	defer sess.Install(nil, nil)
 	env, err := sess.NewEnv(data)
 	if err != nil {
@@ -159,6 +166,42 @@ func run(c *Case, base string) (violation string, nontrivial bool, classes []str
 			}
 		case "flush-nowait":
 			env.FlushNoWait(id)
+		case "flush-behind-running-cycle":
+			// A waiting flush issued while a cycle triggered by an earlier
+			// (non-waiting) flush is still scanning; an edit made in between
+			// must be delivered when the waiting flush returns.
+			if !m.exists || m.paused {
+				break
+			}
+			slow.Store(true)
+			env.FlushNoWait(id)
+			time.Sleep(15 * time.Millisecond)
+			counter++
+			name := fmt.Sprintf("f%d-alpha", counter)
+			content := fmt.Sprintf("content %d", counter)
+			os.WriteFile(filepath.Join(aRoot, name), []byte(content), 0o644)
+			pendingEdits = append(pendingEdits, struct{ side, name, content string }{"alpha", name, content})
+			begin2 := j.Mark(id, "flush.begin")
+			err := env.Flush(id, 5*time.Second)
+			end := j.Mark(id, "flush.end")
+			slow.Store(false)
+			sawRace = true
+			if err == nil {
+				if v := cycleWithin(j, id, begin2, end); v != "" {
+					return fmt.Sprintf("step %d (waiting flush behind a running cycle): %s", ci, v), true, classes
+				}
+				for _, e := range pendingEdits {
+					other := bRoot
+					if e.side == "beta" {
+						other = aRoot
+					}
+					got, rerr := os.ReadFile(filepath.Join(other, e.name))
+					if rerr != nil || string(got) != e.content {
+						return fmt.Sprintf("step %d: waiting flush (issued behind a running cycle) returned success but %q written on %s before it is not on the other root (%v)", ci, e.name, e.side, rerr), true, classes
+					}
+				}
+				pendingEdits = nil
+			}
 		case "flush||pause":
 			// A waiting flush racing with a pause.
 			if !m.exists || m.paused {
@@ -316,12 +359,12 @@ func TestLifecycleHistories(t *testing.T) {
 	if ev.ReplayPath() != "" {
 		t.Skip()
 	}
-	rec := ev.New(t, prop, "lifecycle-histories", "rapid: command sequences (5-25 of: edit alpha/beta, pause, resume, waiting flush, non-waiting flush, reset, terminate, manager restart on the same data directory, a waiting flush racing with a pause) on a real Manager session between two real roots, endpoint calls journaled with a global sequence; non-trivial: the history contains pause -> restart -> resume or a flush racing with a pause")
+	rec := ev.New(t, prop, "lifecycle-histories", "rapid: command sequences (5-25 of: edit alpha/beta, pause, resume, waiting flush, non-waiting flush, reset, terminate, manager restart on the same data directory, a waiting flush racing with a pause, a waiting flush issued behind a cycle that is still scanning) on a real Manager session between two real roots, endpoint calls journaled with a global sequence; non-trivial: the history contains pause -> restart -> resume or a flush racing with a pause")
 	base := t.TempDir()
 	n := 0
 	ev.Check(t, rec, 150, 5000, func(rt *rapid.T) {
 		c := &Case{CreatePaused: rapid.IntRange(0, 4).Draw(rt, "create-paused") == 0}
-		ops := []string{"edit-alpha", "edit-beta", "edit-alpha", "pause", "resume", "resume", "flush", "flush", "flush-nowait", "reset", "terminate", "restart", "restart", "flush||pause", "settle"}
+		ops := []string{"edit-alpha", "edit-beta", "edit-alpha", "pause", "resume", "resume", "flush", "flush", "flush-nowait", "flush-behind-running-cycle", "reset", "terminate", "restart", "restart", "flush||pause", "settle"}
 		for k := rapid.IntRange(5, 25).Draw(rt, "len"); k > 0; k-- {
 			op := rapid.SampledFrom(ops).Draw(rt, "op")
 			if op == "terminate" && rapid.IntRange(0, 2).Draw(rt, "really-terminate") > 0 {
